@@ -3,27 +3,31 @@
 # 1. confirms the seeded change in the scratch worktree (unit tests pass, demo fails with / passes without the patch)
 # 2. runs ./check <PROP> (quick) from an isolated copy of /verif whose harness depends on the patched worktree,
 #    so that neither /repo nor /verif's own build is disturbed.  One summary line per step.
+# The copy (/tmp/vc_<worktree name>) keeps its harness build between seeds; remove it with the worktree.
 sd=$1; wt=$2; shift; shift
-tag=$(echo $sd | tr '/' '_')
+tag=$(basename $sd)
+res=/tmp/seed/results; mkdir -p $res
 feat=$(python3 -c "import json,re,sys; m=json.load(open('$sd/meta.json')); c=m.get('demo_cmd',''); r=re.search(r'--features[ =](\S+)', c); print(r.group(1) if r else '')")
 fa=""; [ -n "$feat" ] && fa="--features $feat"
 cd $wt && git checkout -q -- . && rm -rf tests/seed_demo.rs
+if [ -z "$SKIP_CONFIRM" ]; then
 mkdir -p tests && cp $sd/seed_demo.rs tests/seed_demo.rs
-cargo test --offline --test seed_demo $fa > /tmp/ts_clean_$tag.log 2>&1; clean_rc=$?
-git apply $sd/patch.diff || { echo "SEED $sd: patch does not apply"; exit 3; }
-cargo test --offline --lib > /tmp/ts_unit_$tag.log 2>&1; unit_rc=$?
-unit=$(grep "test result" /tmp/ts_unit_$tag.log | head -1)
-cargo test --offline --test seed_demo $fa > /tmp/ts_patched_$tag.log 2>&1; patched_rc=$?
+cargo test --offline --test seed_demo $fa > $res/${tag}_demo_clean.log 2>&1; clean_rc=$?
+git apply $sd/patch.diff || { echo "SEED $tag: patch does not apply"; exit 3; }
+cargo test --offline --lib > $res/${tag}_unit_patched.log 2>&1; unit_rc=$?
+unit=$(grep "test result" $res/${tag}_unit_patched.log | head -1)
+cargo test --offline --test seed_demo $fa > $res/${tag}_demo_patched.log 2>&1; patched_rc=$?
 rm -rf tests/seed_demo.rs; rmdir tests 2>/dev/null
-echo "SEED $sd: demo_without_patch_rc=$clean_rc unit_with_patch_rc=$unit_rc ($unit) demo_with_patch_rc=$patched_rc"
-vc=/tmp/vc$tag
-rm -rf $vc; mkdir -p $vc
-rsync -a --exclude work --exclude harness/target --exclude .git /verif/ $vc/
+echo "SEED $tag: demo_without_patch_rc=$clean_rc unit_with_patch_rc=$unit_rc ($unit) demo_with_patch_rc=$patched_rc"
+else
+git apply $sd/patch.diff || { echo "SEED $tag: patch does not apply"; exit 3; }
+fi
+vc=/tmp/vc_$(basename $wt)
+mkdir -p $vc
+rsync -a --delete --exclude work --exclude harness/target --exclude .git /verif/ $vc/
 sed -i "s#path = \"/repo\"#path = \"$wt\"#" $vc/harness/Cargo.toml
 for p in "$@"; do
-  cd $vc && timeout 1500 ./check $p --tier quick > /tmp/ts_check_${tag}_$p.log 2>&1; rc=$?
-  echo "SEED $sd: check $p rc=$rc  $(grep -c '^VIOLATION' /tmp/ts_check_${tag}_$p.log) violation line(s); $(tail -1 /tmp/ts_check_${tag}_$p.log)"
-  mkdir -p /tmp/seed/results; cp /tmp/ts_check_${tag}_$p.log /tmp/seed/results/
+  cd $vc && timeout 3000 ./check $p --tier ${SEED_TIER:-quick} > $res/${tag}_check_$p.log 2>&1; rc=$?
+  echo "SEED $tag: check $p rc=$rc  $(grep -c '^VIOLATION' $res/${tag}_check_$p.log) violation line(s); $(tail -1 $res/${tag}_check_$p.log | cut -c1-200)"
 done
 cd $wt && git checkout -q -- .
-rm -rf $vc
